@@ -500,13 +500,17 @@ def rule_balance(ctx):
             nfun += 1
             r.functions.add(name)
     # counted by hand on the pinned tree (+ the five fixes) and equal to what the reader finds
-    floors = {"forget": 8, "from_raw": 16, "into_raw": 6, "alloc": 3, "dec_strong": 7, "dec_weak": 4, "inc_strong": 3,
-              "inc_weak": 4}
+    # role-based floors (forget(x) and x.into_raw() are interchangeable ways of giving up an owner)
+    roles = {"owners given up (forget + into_raw)": (counts["forget"] + counts["into_raw"], 14),
+             "owners created (from_raw)": (counts["from_raw"], 14),
+             "alloc": (counts["alloc"], 3), "strong decrements": (counts["dec_strong"], 7),
+             "weak decrements": (counts["dec_weak"], 4), "strong increments": (counts["inc_strong"], 3),
+             "weak increments": (counts["inc_weak"], 4)}
     r.notes.append("primitive event sites: %s" % counts)
     ctx._own_counts = counts
-    for k, fl in floors.items():
-        if counts[k] < fl:
-            r.floor_failures.append("OWN-BALANCE: found %d `%s` sites, expected at least %d (anchor lost?)" % (counts[k], k, fl))
+    for k, (have, fl) in roles.items():
+        if have < fl:
+            r.floor_failures.append("OWN-BALANCE: found %d sites of `%s`, expected at least %d (anchor lost?)" % (have, k, fl))
     r.require(nfun, 30, "functions carrying ownership events")
     return r
 
